@@ -176,8 +176,10 @@ func evalCfg(c cfg) (key, what, oc string) {
 		backend.ClientAuth = tls.RequireAndVerifyClientCert
 		backend.ClientCAs = tlsx.Pool()
 	}
+	// the public-name server uses the same curve preferences as the backend, so that a stale-config
+	// handshake can also go through a HelloRetryRequest (on the OUTER hello)
 	publicSrv := &tls.Config{Certificates: []tls.Certificate{tlsx.Leaf(0, false, pubName)}, MinVersion: tls.VersionTLS13,
-		EncryptedClientHelloKeys: []tls.EncryptedClientHelloKey{e.T.Key()}}
+		EncryptedClientHelloKeys: []tls.EncryptedClientHelloKey{e.T.Key()}, CurvePreferences: backendCurveSets[c.BackendCurves]}
 	mkClient := func(list []byte, cache tls.ClientSessionCache) *tls.Config {
 		cc := &tls.Config{ServerName: name, RootCAs: tlsx.Pool(), MinVersion: tls.VersionTLS13, NextProtos: clientALPNs[c.ClientALPN],
 			CurvePreferences: curveSets[c.ClientCurves], EncryptedClientHelloConfigList: list, ClientSessionCache: cache}
